@@ -362,7 +362,7 @@ pub fn generate(s: &mut Session, thorough: bool) -> bool {
     let scale = if thorough { 20 } else { 1 };
     // (i) track fit on the degenerate families
     for fam in 0..10u64 {
-        for _ in 0..150 * scale {
+        for _ in 0..400 * scale {
             let pts = degenerate_points(&mut rng, fam);
             let (imp, why) = run_fit(&pts);
             let gen: &'static str = match fam {
@@ -381,7 +381,7 @@ pub fn generate(s: &mut Session, thorough: bool) -> bool {
         }
     }
     // (ii) find_vertices on helices with degenerate pitch, sizes 0..=8, with ties
-    for _ in 0..1500 * scale {
+    for _ in 0..3000 * scale {
         let n = rng.range(0, 8) as usize;
         let mut specs: Vec<TrackSpec> = Vec::new();
         let zc = rng.f64_unit() - 0.5;
@@ -399,7 +399,7 @@ pub fn generate(s: &mut Session, thorough: bool) -> bool {
         s.push_oracle("vertices-pitch", req, imp, why);
     }
     // (iii) closest_t: pitch family x points on / off the axis, on the circle, far away
-    for _ in 0..3000 * scale {
+    for _ in 0..6000 * scale {
         let h = *rng.pick(&PITCH) * if rng.bool() { 1.0 } else { -1.0 };
         let r = *rng.pick(&[0.0, 1e-300, 0.05, 0.5, 1.0, 1e3]);
         let (x0, y0, z0) = ((rng.f64_unit() - 0.5) * 2.0, (rng.f64_unit() - 0.5) * 2.0, rng.f64_unit() - 0.5);
